@@ -87,12 +87,12 @@ def run(ctx):
     n_cover = len(beh_steps)
     exhaustive_len = 0
     if not quick:
-        allp = structural_paths(g, 7, shapes, ctx.rng, 40000)
+        allp = structural_paths(g, 6, shapes, ctx.rng, 20000)
         if allp is None:
             raise vlib.NoVerdict("more structural paths than the cap")
         beh_steps += allp
-        exhaustive_len = 7
-        ctx.cov["all_structural_paths_len7"] = len(allp)
+        exhaustive_len = 6
+        ctx.cov["all_structural_paths_len6"] = len(allp)
     beh = [{"id": i, "steps": s} for i, s in enumerate(beh_steps)]
     ctx.log("%d behaviours (%d steps)" % (len(beh), sum(len(b["steps"]) for b in beh)))
     infile = vlib.write_json(os.path.join(ctx.work, "behaviours.json"), beh)
@@ -132,7 +132,7 @@ def run(ctx):
         rule="TLC exhausts all histories of length <= %d over 3 senders" % (5 if quick else 7) + " of the transcribed algorithm (StaticRTP_MC); "
              "behaviours = edge cover of the complete labelled state graph (16 binding sequences x every action incl. "
              "45 packet shapes x 2 write APIs) + seeded walks" +
-             ("" if quick else " + every Bind/Unbind/Write history of length 7 (structural alphabet)") +
+             ("" if quick else " + every Bind/Unbind/Write history of length 6 (structural alphabet)") +
              "; one evaluation = one write call on a real TrackLocalStaticRTP judged by TLC; distinct = distinct "
              "(api, packet shape, set of bound senders)",
         distinct_nontrivial=len(distinct), exhaustive=not quick, replay_of=replay_of)
